@@ -584,17 +584,16 @@ def check_c11p(trace, res: Result, hs: Hasher):
                     expected={k: sorted(v) for k, v in _ref_residency(refc, 1 << ic["ib"]).items()},
                     got={k: sorted(v) for k, v in _icache_residency(im).items()})
         return
-    want_cycles = n + (1 if cached["exc"] else 0)
-    dmiss = 0
-    dmem = cached["sim"].state.memory
-    if dc:
-        dmiss = dmem.accesses - dmem.hits
-    # single-cycle: one cycle per step + penalties (a faulting data access may or may not have been charged)
-    cyc = cached["sim"].state.performance_metrics.cycles
-    want = want_cycles + ic["pen"] * (refc.acc - refc.hits) + (dc["pen"] * dmiss if dc else 0)
-    if not cached["exc"] and cyc != want:
-        res.violate("C11", "penalty-cycles", expected=want, got=cyc, mode="single", misses=refc.acc - refc.hits)
-        return
+    # every instruction-cache miss adds the configured penalty: isolated from everything else that moves the
+    # cycle counter (steps, data-cache penalties - C07/C09's business) by subtracting the run without the
+    # instruction cache, which performs the same steps and the same data accesses
+    if not cached["exc"] and not plain["exc"]:
+        extra = cached["sim"].state.performance_metrics.cycles - plain["sim"].state.performance_metrics.cycles
+        want = ic["pen"] * (refc.acc - refc.hits)
+        if extra != want:
+            res.violate("C11", "penalty-cycles", expected=want, got=extra, mode="single", misses=refc.acc - refc.hits,
+                        note="cycles with the instruction cache minus cycles without it")
+            return
 
     # ---- five-stage mode
     ref5 = RefCache("ro", ic["ib"], ic["bb"], ic["ways"], ic["strat"])
@@ -651,17 +650,17 @@ def check_c11p(trace, res: Result, hs: Hasher):
                     expected={k: sorted(v) for k, v in _ref_residency(ref5, 1 << ic["ib"]).items()},
                     got={k: sorted(v) for k, v in _icache_residency(im5).items()})
         return
-    # (3) penalty identity per tick
-    dpen = dc["pen"] if dc else 0
-    prev = (0, 0, 0, 0, 0)
-    for r in five["ticks"]:
-        dmiss = ((r[7] or 0) - prev[1]) - ((r[8] or 0) - prev[2])
-        imiss = ((r[9] or 0) - prev[3]) - ((r[10] or 0) - prev[4])
-        want = 1 + dpen * dmiss + ic["pen"] * imiss
-        if r[2] - prev[0] != want:
-            res.violate("C11", "penalty-cycles", at=r[0], expected=want, got=r[2] - prev[0], mode="five", instr_misses=imiss)
+    # (3) penalty per tick, isolated the same way: (cycle delta with the instruction cache) - (cycle delta
+    # of the same tick without it) == penalty x instruction misses counted in that tick
+    prev_on = prev_off = 0
+    prev_acc = prev_hit = 0
+    for r, q in zip(five["ticks"], plain5["ticks"]):
+        imiss = ((r[9] or 0) - prev_acc) - ((r[10] or 0) - prev_hit)
+        extra = (r[2] - prev_on) - (q[2] - prev_off)
+        if extra != ic["pen"] * imiss:
+            res.violate("C11", "penalty-cycles", at=r[0], expected=ic["pen"] * imiss, got=extra, mode="five", instr_misses=imiss)
             return
-        prev = (r[2], r[7] or 0, r[8] or 0, r[9] or 0, r[10] or 0)
+        prev_on, prev_off, prev_acc, prev_hit = r[2], q[2], r[9] or 0, r[10] or 0
     # probes
     nblk = 1 << ic["bb"]
     if len(prog) % nblk:
